@@ -150,15 +150,20 @@ class PathState:
             return 'unsat', None
         if r == z3.sat:
             return 'sat', self.solver.model()
+        if self.hard and self.inputs:
+            m = self.witness_model(extra=[neg])      # heuristic counterexample search (a model found this way is a real model)
+            if m is not None:
+                return 'sat', m
         return 'unknown', None
 
-    def witness_model(self):
+    def witness_model(self, extra=()):
         """model of the full path condition (hard constraints included) or None.
         When the solver cannot construct one directly (checksum chains), most input characters are fixed to the values of
         a model of the relaxed condition and the remaining ones are solved for (a witness is only an example; any will do)."""
+        extra = list(extra)
         if self.hard:
             self.solver.set('timeout', min(CONFIG['query_timeout_ms'], 3000))
-        r = self.check(full=True)
+        r = self.check(*extra, full=True)
         self.solver.set('timeout', CONFIG['query_timeout_ms'])
         self.last_status = str(r)
         if r == z3.sat:
@@ -167,24 +172,30 @@ class PathState:
             return None
         import random
         rnd = random.Random(len(self.decisions))
-        if self.check() != z3.sat:
+        if self.check(*extra) != z3.sat:
             return None
         relaxed = self.solver.model()
         n = len(self.inputs)
-        for attempt in range(10):
-            free = set(rnd.sample(range(n), min(n, 2 + attempt // 2)))
-            if attempt % 2 == 0:
-                free |= {n - 1, n - 2} & set(range(n))
+        sizes = [4, 6, 6, 8, 8, 10, 10, 12]
+        for attempt, k in enumerate(sizes):
+            free = set(rnd.sample(range(n), min(n, k)))
             fix = [v == relaxed.eval(v, model_completion=True) for i, v in enumerate(self.inputs) if i not in free]
-            r = self.solver.check(*(fix + self.hard))
+            s2 = z3.Solver()
+            s2.set('timeout', 2500)
+            s2.add(self.constraints)      # includes the hard definitions
+            s2.add(extra)
+            s2.add(fix)
+            t0 = time.time()
+            r = s2.check()
             STATS['checks'] += 1
+            STATS['solver_s'] += time.time() - t0
             if r == z3.sat:
                 self.last_status = 'sat'
-                return self.solver.model()
-            if attempt == 4:
+                return s2.model()
+            if attempt == 3:
                 # another relaxed model to start from
                 self.solver.push()
-                self.solver.add(z3.Or([v != relaxed.eval(v, model_completion=True) for v in self.inputs[:3]]))
+                self.solver.add(z3.Or([v != relaxed.eval(v, model_completion=True) for v in self.inputs[:4]]))
                 if self.solver.check() == z3.sat:
                     relaxed = self.solver.model()
                 self.solver.pop()
@@ -1944,6 +1955,14 @@ class RT:
         return bool(x)
 
     @staticmethod
+    def truth_guard(x):
+        if isinstance(x, SBool):
+            return fork(x.z, prefer=False)
+        if isinstance(x, SInt):
+            return fork(x.z != 0, prefer=False)
+        return RT.truth(x)
+
+    @staticmethod
     def filter_truth(x):
         """truth of a comprehension filter: dropping an element is the budgeted branch"""
         if isinstance(x, SBool):
@@ -2582,7 +2601,11 @@ class Tx(ast.NodeTransformer):
             assign = ast.Assign(targets=[ast.Tuple(elts=[ast.Name(id=v, ctx=ast.Store()) for v in names], ctx=ast.Store())], value=call)
             return [f1, f2, assign]
         self.generic_visit(node)
-        node.test = self._truth(node.test)
+        if len(node.body) == 1 and isinstance(node.body[0], ast.Raise) and not node.orelse:
+            # a guard `if cond: raise ...`: explore the non-raising side first so that accepting paths are reached early
+            node.test = ast.Call(func=self._rt('truth_guard'), args=[node.test], keywords=[])
+        else:
+            node.test = self._truth(node.test)
         return node
 
     def visit_While(self, node):
